@@ -15,7 +15,8 @@ import time
 from . import kani_engine, native, registry, shadow
 
 VERIF = shadow.VERIF
-EVIDENCE = os.path.join(VERIF, "evidence")
+# seed runs (lib/run_seed.sh) write their evidence to a scratch directory: /verif/evidence describes the unchanged tree only
+EVIDENCE = os.environ.get("VERIF_EVIDENCE_DIR") or os.path.join(VERIF, "evidence")
 LOGS = os.path.join(shadow.CACHE, "logs")
 
 
@@ -149,6 +150,12 @@ def main(argv=None):
             pres, pinfo = kani_engine.run([h.fq()], h.timeout(a.tier) * 2, jobs=1, playback=True, unwindset=h.unwindset,
                                           log_path=os.path.join(LOGS, "%s-%s-playback.log" % (prop, h.name)))
             vals = kani_engine.parse_playback(pinfo.get("playback_out", ""), nonunwind[0][1])
+            if vals is None:
+                # Kani printed tests for the satisfied covers only: second attempt with the covers compiled out
+                pres, pinfo = kani_engine.run([h.fq()], h.timeout(a.tier) * 2, jobs=1, playback=True, unwindset=h.unwindset,
+                                              env_extra={"VERIF_NOCOVER": "1"},
+                                              log_path=os.path.join(LOGS, "%s-%s-playback2.log" % (prop, h.name)))
+                vals = kani_engine.parse_playback(pinfo.get("playback_out", ""), nonunwind[0][1])
             if vals is None:
                 inconclusive.append("harness %s: failed (%s) but no concrete values could be extracted"
                                     % (h.name, nonunwind[0][1]))
